@@ -29,6 +29,9 @@ func init() {
 			"with static query and placeholders; patterns with 0-5 segments (static, {name}, mixed pre{name}, {a}.{b}, repeated names), optional trailing slash and static query; " +
 			"values from a hostile pool ('' '.' '..' '/' '?' '#' '%2F' '{other}' non-UTF-8, controls) and random bytes; query names from a 7-name pool to force collisions. " +
 			"Every case is built >= 6 times (8 in thorough) through client.New(...).CreateHttpRequest with different SetPathParam/SetQueryParam call orders (Go map order varies per build); " +
+			"a third of the cases make all their builds on ONE Runtime on which 0-3 other operations (own patterns with static queries, values, caller queries, scheme lists) were built first, a third of those on a Runtime created without schemes; " +
+			"entry points client.New, client.NewWithClient and a base path assigned to Runtime.BasePath; in a quarter of the cases one path value and/or one query entry is set by the authentication writer (ClientOperation.AuthInfo or Runtime.DefaultAuthentication) instead of the params writer; " +
+			"values with '$' ('$1' '${a}' '$$' ...), placeholder names that are siblings under pattern matching ('a.b' 'a-b' 'axb'); " +
 			"oracle = reference builder written from the statement. non-trivial = case with >= 1 placeholder whose value needs escaping, or >= 1 query-name collision between caller/pattern/base; " +
 			"distinct by (base, pattern, values, caller query)",
 		Assumptions: []string{
@@ -39,6 +42,8 @@ func init() {
 			"scheme: the transport-level list, when non-empty, is the offered list, otherwise the operation-level list; with no list at all the default scheme is not judged; a single offered scheme must be chosen as is",
 			"a caller query parameter set with zero values is not generated; the order of different query names in the encoded query is not judged (per-name value order is)",
 			"static query strings are well-formed name=value pairs (names and values percent-encoded by the generator)",
+			"a parameter set by the authentication writer is a caller-level parameter like one set by the params writer",
+			"the URL of an operation is a function of the Runtime's configuration and of the operation: what was built before on the same Runtime does not enter the expectation",
 		},
 		MinNontrivial: 500,
 		Run:           run,
@@ -72,6 +77,30 @@ type Case struct {
 	// the others SetQueryParam calls). Each order is built Repeat times (0 = once).
 	Orders [][]int `json:"orders"`
 	Repeat int     `json:"repeat,omitempty"`
+
+	// Entry is how the Runtime is obtained: "" = client.New, "with-client" = client.NewWithClient,
+	// "field" = client.New(host, "/", schemes) followed by a direct assignment of Runtime.BasePath.
+	Entry string `json:"entry,omitempty"`
+	// Shared: all the builds of this case are made on ONE Runtime (after the Before operations were
+	// built on it); otherwise every build gets a fresh Runtime (on which Before is built first).
+	Shared bool `json:"shared_runtime,omitempty"`
+	// Before are other operations built on the same Runtime before this case's own builds. They are
+	// not judged here; the URL of this case must not depend on them.
+	Before []Op `json:"before,omitempty"`
+	// AuthCalls are the call indices (same numbering as Orders) that are made by the authentication
+	// writer instead of the Params writer; AuthDefault routes that writer through
+	// Runtime.DefaultAuthentication instead of ClientOperation.AuthInfo.
+	AuthCalls   []int `json:"auth_calls,omitempty"`
+	AuthDefault bool  `json:"auth_default,omitempty"`
+}
+
+// Op is an operation built on a shared Runtime before the case proper.
+type Op struct {
+	Method   string   `json:"method,omitempty"`
+	Pattern  mon.Q    `json:"pattern"`
+	Params   []KV     `json:"params,omitempty"`
+	Query    []QP     `json:"query,omitempty"`
+	OSchemes []string `json:"operation_schemes,omitempty"`
 }
 
 // ---------------------------------------------------------------------------------------------
@@ -300,13 +329,15 @@ func featureOf(v string) string {
 		return "hash-in-value"
 	case strings.Contains(v, "%"):
 		return "percent-in-value"
+	case strings.Contains(v, "$"):
+		return "dollar-in-value"
 	case needsEscape(v):
 		return "reserved-byte-in-value"
 	}
 	return "plain-values"
 }
 
-var featureRank = []string{"empty-value", "dot-value", "placeholder-like-value", "slash-in-value", "question-in-value", "hash-in-value", "percent-in-value", "reserved-byte-in-value", "plain-values"}
+var featureRank = []string{"empty-value", "dot-value", "placeholder-like-value", "slash-in-value", "question-in-value", "hash-in-value", "percent-in-value", "dollar-in-value", "reserved-byte-in-value", "plain-values"}
 
 func strongest(feats map[string]bool) string {
 	for _, f := range featureRank {
@@ -417,12 +448,56 @@ type built struct {
 	fragment  string
 }
 
-func buildOnce(c *Case, order []int) built {
+// open obtains the Runtime of a case through its entry point and builds the Before operations on it.
+func open(c *Case) *client.Runtime {
+	var rt *client.Runtime
+	ts := append([]string(nil), c.TSchemes...) // the oracle keeps its own list
+	switch c.Entry {
+	case "with-client":
+		rt = client.NewWithClient(c.Host, string(c.BasePath), ts, &http.Client{})
+	case "field":
+		rt = client.New(c.Host, "/", ts)
+		rt.BasePath = string(c.BasePath)
+	default:
+		rt = client.New(c.Host, string(c.BasePath), ts)
+	}
+	for i := range c.Before {
+		o := &c.Before[i]
+		writer := runtime.ClientRequestWriterFunc(func(req runtime.ClientRequest, _ strfmt.Registry) error {
+			for _, p := range o.Params {
+				_ = req.SetPathParam(p.Name, string(p.Value))
+			}
+			for _, q := range o.Query {
+				_ = req.SetQueryParam(string(q.Name), mon.SQ(q.Values)...)
+			}
+			return nil
+		})
+		method := o.Method
+		if method == "" {
+			method = "GET"
+		}
+		op := &runtime.ClientOperation{ID: "before", Method: method, PathPattern: string(o.Pattern), Schemes: append([]string(nil), o.OSchemes...), Params: writer}
+		mon.Catch(func() { _, _ = rt.CreateHttpRequest(op) })
+	}
+	return rt
+}
+
+// buildOnce builds the case on a Runtime of its own.
+func buildOnce(c *Case, order []int) built { return buildOn(open(c), c, order) }
+
+// buildOn builds the case once on the given Runtime, making the calls in the given order.
+func buildOn(rt *client.Runtime, c *Case, order []int) built {
 	var b built
-	rt := client.New(c.Host, string(c.BasePath), c.TSchemes)
 	np := len(c.Params)
-	writer := runtime.ClientRequestWriterFunc(func(req runtime.ClientRequest, _ strfmt.Registry) error {
+	viaAuth := map[int]bool{}
+	for _, i := range c.AuthCalls {
+		viaAuth[i] = true
+	}
+	calls := func(req runtime.ClientRequest, auth bool) error {
 		for _, i := range order {
+			if viaAuth[i] != auth {
+				continue
+			}
 			switch {
 			case i < np:
 				if err := req.SetPathParam(c.Params[i].Name, string(c.Params[i].Value)); err != nil {
@@ -436,13 +511,23 @@ func buildOnce(c *Case, order []int) built {
 			}
 		}
 		return nil
-	})
+	}
+	writer := runtime.ClientRequestWriterFunc(func(req runtime.ClientRequest, _ strfmt.Registry) error { return calls(req, false) })
 	op := &runtime.ClientOperation{
 		ID:          "op",
 		Method:      c.Method,
 		PathPattern: string(c.Pattern),
-		Schemes:     c.OSchemes,
+		Schemes:     append([]string(nil), c.OSchemes...),
 		Params:      writer,
+	}
+	rt.DefaultAuthentication = nil
+	if len(c.AuthCalls) > 0 {
+		auth := runtime.ClientAuthInfoWriterFunc(func(req runtime.ClientRequest, _ strfmt.Registry) error { return calls(req, true) })
+		if c.AuthDefault {
+			rt.DefaultAuthentication = auth
+		} else {
+			op.AuthInfo = auth
+		}
 	}
 	var req *http.Request
 	var err error
@@ -537,10 +622,26 @@ func runCase(m *mon.M, c *Case) {
 	judged := map[string][]int{}
 	var firstKey string
 	var firstOrder []int
+	var shared *client.Runtime
+	if c.Shared {
+		shared = open(c)
+		m.Class(fmt.Sprintf("shared-runtime/before=%d", len(c.Before)))
+	}
+	if c.Entry != "" {
+		m.Class("entry/" + c.Entry)
+	}
+	if len(c.AuthCalls) > 0 {
+		m.Class(fmt.Sprintf("auth-writer-sets-params/default=%v", c.AuthDefault))
+	}
 	for _, ord := range orders {
 		for k := 0; k < rep; k++ {
 			m.Eval(1)
-			b := buildOnce(c, ord)
+			var b built
+			if shared != nil {
+				b = buildOn(shared, c, ord)
+			} else {
+				b = buildOnce(c, ord)
+			}
 			key := b.key()
 			if _, seen := judged[key]; seen {
 				continue
@@ -550,7 +651,7 @@ func runCase(m *mon.M, c *Case) {
 				firstKey, firstOrder = key, ord
 			} else {
 				two := minimal(c, [][]int{firstOrder, ord})
-				m.Violate("order-dependent/"+feat,
+				m.Violate("order-dependent/"+feat+reusedSuffix(c, ord, b),
 					fmt.Sprintf("same case, two builds differ: order %v -> %s ; order %v -> %s", firstOrder, firstKey, ord, key), two)
 			}
 			judge(m, c, ref, values, b, ord, feat)
@@ -628,12 +729,21 @@ func collisions(c *Case, ref *refURL) []string {
 
 func judge(m *mon.M, c *Case, ref *refURL, values map[string]string, b built, ord []int, feat string) {
 	one := minimal(c, [][]int{ord})
+	// every violation below goes through viol, which qualifies the signature of a case built on a
+	// reused Runtime when the same build on a Runtime of its own gives another result
+	sfx, sfxDone := "", false
+	viol := func(sig, detail string, cs interface{}) {
+		if !sfxDone {
+			sfx, sfxDone = reusedSuffix(c, ord, b), true
+		}
+		m.Violate(sig+sfx, detail+beforeNote(c), cs)
+	}
 	if b.panicked != "" {
-		m.Violate("build-panic/"+feat, "CreateHttpRequest panicked: "+b.panicked, one)
+		viol("build-panic/"+feat, "CreateHttpRequest panicked: "+b.panicked, one)
 		return
 	}
 	if b.err != "" {
-		m.Violate("build-error/"+culpritFeature(c, ref, values, ord), "CreateHttpRequest failed: "+b.err, one)
+		viol("build-error/"+culpritFeature(c, ref, values, ord), "CreateHttpRequest failed: "+b.err, one)
 		m.Class("build-error")
 		return
 	}
@@ -648,10 +758,10 @@ func judge(m *mon.M, c *Case, ref *refURL, values map[string]string, b built, or
 	switch {
 	case b.escPath == "":
 		shapeOK = false
-		m.Violate("segments-lost/"+culpritFeature(c, ref, values, ord), describe, one)
+		viol("segments-lost/"+culpritFeature(c, ref, values, ord), describe, one)
 	case b.escPath[0] != '/':
 		shapeOK = false
-		m.Violate("path-not-rooted/"+culpritFeature(c, ref, values, ord), describe, one)
+		viol("path-not-rooted/"+culpritFeature(c, ref, values, ord), describe, one)
 	case len(got) != len(want):
 		shapeOK = false
 		// classify: only the trailing slash differs?
@@ -661,20 +771,20 @@ func judge(m *mon.M, c *Case, ref *refURL, values map[string]string, b built, or
 			if len(want) >= 2 && want[len(want)-2] == "" {
 				sig += "/empty-last-segment"
 			}
-			m.Violate(sig, describe, one)
+			viol(sig, describe, one)
 		case len(got) == len(want)+1 && got[len(got)-1] == "" && sameDecoded(got[:len(got)-1], want):
-			m.Violate("trailing-slash-added", describe, one)
+			viol("trailing-slash-added", describe, one)
 		case len(got) > len(want):
-			m.Violate("segments-added/"+culpritFeature(c, ref, values, ord), describe, one)
+			viol("segments-added/"+culpritFeature(c, ref, values, ord), describe, one)
 		default:
-			m.Violate("segments-lost/"+culpritFeature(c, ref, values, ord), describe, one)
+			viol("segments-lost/"+culpritFeature(c, ref, values, ord), describe, one)
 		}
 	}
 	if shapeOK {
 		for i := range want {
 			dec, ok := pctDecode(got[i], false)
 			if !ok {
-				m.Violate("invalid-escape-in-path/"+feat, fmt.Sprintf("segment %d %q is not a valid percent-encoding; %s", i, got[i], describe), one)
+				viol("invalid-escape-in-path/"+feat, fmt.Sprintf("segment %d %q is not a valid percent-encoding; %s", i, got[i], describe), one)
 				continue
 			}
 			if dec != want[i] {
@@ -686,10 +796,10 @@ func judge(m *mon.M, c *Case, ref *refURL, values map[string]string, b built, or
 				if i > 0 && i-1 < len(ref.segs) && resubstituted(ref.segs[i-1], values, dec) {
 					sig = "value-resubstituted/placeholder-like-value"
 				}
-				m.Violate(sig, fmt.Sprintf("segment %d decodes to %q, expected %q; %s", i, dec, want[i], describe), one)
+				viol(sig, fmt.Sprintf("segment %d decodes to %q, expected %q; %s", i, dec, want[i], describe), one)
 			}
 			if strings.ContainsAny(got[i], "?#") {
-				m.Violate("raw-reserved-in-segment/"+feat, fmt.Sprintf("segment %d %q carries a raw '?' or '#'; %s", i, got[i], describe), one)
+				viol("raw-reserved-in-segment/"+feat, fmt.Sprintf("segment %d %q carries a raw '?' or '#'; %s", i, got[i], describe), one)
 			}
 		}
 	}
@@ -700,27 +810,27 @@ func judge(m *mon.M, c *Case, ref *refURL, values map[string]string, b built, or
 				ff = "hash-in-value"
 			}
 		}
-		m.Violate("fragment-introduced/"+ff, fmt.Sprintf("URL has fragment %q; %s", b.fragment, describe), one)
+		viol("fragment-introduced/"+ff, fmt.Sprintf("URL has fragment %q; %s", b.fragment, describe), one)
 	}
 	_ = wantPath
 
 	// --- the URL as a string says the same thing ---
 	if u2, err := url.Parse(b.urlString); err != nil {
-		m.Violate("url-string-unparsable/"+feat, fmt.Sprintf("URL.String() %q does not parse: %v", b.urlString, err), one)
+		viol("url-string-unparsable/"+feat, fmt.Sprintf("URL.String() %q does not parse: %v", b.urlString, err), one)
 	} else if u2.EscapedPath() != b.escPath || u2.RawQuery != b.rawQuery || u2.Fragment != "" || u2.Host != b.host || u2.Scheme != b.scheme {
-		m.Violate("url-string-differs/"+feat, fmt.Sprintf("URL.String() %q re-parses to path %q query %q fragment %q host %q, the request URL says path %q query %q host %q", b.urlString, u2.EscapedPath(), u2.RawQuery, u2.Fragment, u2.Host, b.escPath, b.rawQuery, b.host), one)
+		viol("url-string-differs/"+feat, fmt.Sprintf("URL.String() %q re-parses to path %q query %q fragment %q host %q, the request URL says path %q query %q host %q", b.urlString, u2.EscapedPath(), u2.RawQuery, u2.Fragment, u2.Host, b.escPath, b.rawQuery, b.host), one)
 	}
 
 	// --- host ---
 	if b.host != c.Host || b.reqHost != c.Host {
-		m.Violate("host-differs", fmt.Sprintf("URL.Host %q Request.Host %q, expected %q", b.host, b.reqHost, c.Host), one)
+		viol("host-differs", fmt.Sprintf("URL.Host %q Request.Host %q, expected %q", b.host, b.reqHost, c.Host), one)
 	}
 
 	// --- query precedence ---
 	expQ, src := ref.expectedQuery(c)
 	gotGroups, ok := parseQuery(b.rawQuery)
 	if !ok {
-		m.Violate("query-malformed", fmt.Sprintf("RawQuery %q is not well-formed", b.rawQuery), one)
+		viol("query-malformed", fmt.Sprintf("RawQuery %q is not well-formed", b.rawQuery), one)
 	} else {
 		gotQ := map[string][]string{}
 		for _, g := range gotGroups {
@@ -743,11 +853,11 @@ func judge(m *mon.M, c *Case, ref *refURL, values map[string]string, b built, or
 			if lvl := whichLevel(c, ref, name, gv); lvl != "" && lvl != src[name] {
 				sig = "query-precedence/" + lvl + "-beats-" + src[name]
 			}
-			m.Violate(sig, fmt.Sprintf("query name %q: got %q (present=%v), expected %q from the %s level; base %q pattern %q caller %v raw %q", name, gv, present, wantVals, src[name], string(c.BasePath), string(c.Pattern), c.Query, b.rawQuery), one)
+			viol(sig, fmt.Sprintf("query name %q: got %q (present=%v), expected %q from the %s level; base %q pattern %q caller %v raw %q", name, gv, present, wantVals, src[name], string(c.BasePath), string(c.Pattern), c.Query, b.rawQuery), one)
 		}
 		for name, gv := range gotQ {
 			if _, ok := expQ[name]; !ok {
-				m.Violate("query-param-invented", fmt.Sprintf("query name %q=%q was set by nobody; raw %q", name, gv, b.rawQuery), one)
+				viol("query-param-invented", fmt.Sprintf("query name %q=%q was set by nobody; raw %q", name, gv, b.rawQuery), one)
 			}
 		}
 	}
@@ -764,7 +874,7 @@ func judge(m *mon.M, c *Case, ref *refURL, values map[string]string, b built, or
 			if len(c.TSchemes) == 0 {
 				lvl = "operation"
 			}
-			m.Violate("https-not-chosen/"+lvl+"-level", fmt.Sprintf("transport schemes %v, operation schemes %v: chosen %q", c.TSchemes, c.OSchemes, b.scheme), one)
+			viol("https-not-chosen/"+lvl+"-level", fmt.Sprintf("transport schemes %v, operation schemes %v: chosen %q", c.TSchemes, c.OSchemes, b.scheme), one)
 		}
 	default:
 		m.Class("scheme/no-https-or-single")
@@ -783,9 +893,31 @@ func judge(m *mon.M, c *Case, ref *refURL, values map[string]string, b built, or
 					}
 				}
 			}
-			m.Violate(sig, fmt.Sprintf("transport schemes %v, operation schemes %v: chosen %q", c.TSchemes, c.OSchemes, b.scheme), one)
+			viol(sig, fmt.Sprintf("transport schemes %v, operation schemes %v: chosen %q", c.TSchemes, c.OSchemes, b.scheme), one)
 		}
 	}
+}
+
+// reusedSuffix qualifies a signature raised for a build made on a reused Runtime (after other
+// operations or other builds): when the same calls on a Runtime of its own, with nothing built
+// before, give another result, the failure is one of history, not of the inputs.
+func reusedSuffix(c *Case, ord []int, b built) string {
+	if !c.Shared && len(c.Before) == 0 {
+		return ""
+	}
+	fresh := *c
+	fresh.Shared, fresh.Before = false, nil
+	if buildOnce(&fresh, ord).key() != b.key() {
+		return "/only-on-reused-runtime"
+	}
+	return ""
+}
+
+func beforeNote(c *Case) string {
+	if !c.Shared && len(c.Before) == 0 {
+		return ""
+	}
+	return fmt.Sprintf(" ; built on a Runtime (entry %q, shared=%v) after %d other operation(s)", c.Entry, c.Shared, len(c.Before))
 }
 
 func sameDecoded(got, want []string) bool {
@@ -860,12 +992,15 @@ func equalStrings(a, b []string) bool {
 
 var (
 	staticWords = []string{"a", "users", "v1", "items", "x.y", "a-b", "~z", "api", "b"}
-	paramNames  = []string{"a", "b", "id", "ab", "user-id", "x_y", "a.b", "tenant"}
-	queryNames  = []string{"x", "y", "q", "id", "a b", "k=", "\xc3\xa9"}
-	hostileVals = []string{
+	paramNames  = []string{"a", "b", "id", "ab", "user-id", "x_y", "a.b", "tenant", "a-b", "axb"}
+	// names that are siblings of one another if a placeholder is ever read as a pattern ('.' matching any byte)
+	siblingNames = []string{"a.b", "a-b", "axb", "a", "b"}
+	queryNames   = []string{"x", "y", "q", "id", "a b", "k=", "\xc3\xa9"}
+	hostileVals  = []string{
 		"", "", ".", "..", "...", "/", "a/b", "../x", "/etc/passwd", "%2F", "%2f..", "%", "%zz", "%25", "?", "?x=1", "a?b=c", "#", "#frag", "a#b",
 		"{b}", "{a}", "{id}", "{", "}", "{}", "a b", " ", "+", "a+b", "\xc3\xa9", "\xff", "\x00", "\n", ";", ",", ":", "@", "&", "=", "//", "http://x/y",
 		"..%2F", "a;v=1", "x&y=1", "100%", "~", "-._~", "users", "v", "0",
+		"$", "$0", "$1", "${a}", "${1}", "$$", "a$b", "$a", "$&", "\\1", "$id",
 	}
 	hosts       = []string{"localhost", "localhost:8080", "example.com", "127.0.0.1:1", "[::1]:8443"}
 	methods     = []string{"GET", "POST", "PUT", "DELETE", "PATCH", "HEAD", "OPTIONS"}
@@ -905,7 +1040,12 @@ func genValue(r *rand.Rand, names []string) string {
 	case k < 7:
 		return gen.Pick(r, staticWords)
 	default:
-		return gen.Value(r, 8, true)
+		v := gen.Value(r, 8, true)
+		if r.Intn(6) == 0 { // gen.HostileBytes has no '$'
+			at := r.Intn(len(v) + 1)
+			v = v[:at] + "$" + v[at:]
+		}
+		return v
 	}
 }
 
@@ -926,8 +1066,12 @@ func genStaticQuery(r *rand.Rand) string {
 
 func genSegments(r *rand.Rand, n int, names *[]string) []string {
 	var segs []string
+	pool := paramNames
+	if r.Intn(8) == 0 {
+		pool = siblingNames
+	}
 	pick := func() string {
-		nm := paramNames[r.Intn(len(paramNames))]
+		nm := pool[r.Intn(len(pool))]
 		*names = append(*names, nm)
 		return "{" + nm + "}"
 	}
@@ -1076,7 +1220,62 @@ func genCase(r *rand.Rand, norders int) *Case {
 	for len(c.Orders) < norders {
 		c.Orders = append(c.Orders, r.Perm(ncalls))
 	}
+
+	// entry point, reuse of the Runtime, calls made by the authentication writer
+	switch r.Intn(10) {
+	case 0:
+		c.Entry = "with-client"
+	case 1, 2:
+		c.Entry = "field"
+	}
+	if r.Intn(3) == 0 {
+		c.Shared = true
+		if r.Intn(3) == 0 {
+			c.TSchemes = nil // the operations alone decide, one after the other
+		}
+		for i, n := 0, r.Intn(4); i < n; i++ {
+			c.Before = append(c.Before, genOp(r))
+		}
+	}
+	if ncalls > 0 && r.Intn(4) == 0 {
+		// one path value and/or one query entry go through the authentication writer
+		if len(c.Params) > 0 && r.Intn(3) != 0 {
+			c.AuthCalls = append(c.AuthCalls, r.Intn(len(c.Params)))
+		}
+		if len(c.Query) > 0 && (len(c.AuthCalls) == 0 || r.Intn(2) == 0) {
+			c.AuthCalls = append(c.AuthCalls, len(c.Params)+r.Intn(len(c.Query)))
+		}
+		c.AuthDefault = len(c.AuthCalls) > 0 && r.Intn(3) == 0
+	}
 	return c
+}
+
+// genOp makes another operation for a shared Runtime: its own pattern (with static query), values,
+// caller query and scheme list.
+func genOp(r *rand.Rand) Op {
+	var names []string
+	o := Op{Method: methods[r.Intn(len(methods))]}
+	segs := genSegments(r, r.Intn(4), &names)
+	pat := "/" + strings.Join(segs, "/")
+	if len(segs) > 0 && r.Intn(3) == 0 {
+		pat += "/"
+	}
+	if r.Intn(2) == 0 {
+		pat += "?" + genStaticQuery(r)
+	}
+	o.Pattern = mon.Q(pat)
+	seen := map[string]bool{}
+	for _, n := range names {
+		if !seen[n] {
+			seen[n] = true
+			o.Params = append(o.Params, KV{Name: n, Value: mon.Q(genValue(r, names))})
+		}
+	}
+	if r.Intn(2) == 0 {
+		o.Query = append(o.Query, QP{Name: mon.Q(queryNames[r.Intn(len(queryNames))]), Values: []mon.Q{mon.Q(genValue(r, nil))}})
+	}
+	o.OSchemes = genSchemes(r)
+	return o
 }
 
 func genSegmentsBase(r *rand.Rand, names *[]string) []string {
